@@ -6,6 +6,8 @@ Correspondence (hook `style.*` ops vs the Lean driver `drv_style`):
   style.truncate (ansi::truncate_str on a line given as items), style.pad_panel
   (pad_panel_line_to_width under a real Config), and style.term: the Lean abstract terminal against
   the independent Python decoder on the byte strings the implementation produced.
+  machine.ingest under `--max-line-length N` (hook) vs `Line.ingestRaw` (= `style.cr_step`, then `style.truncate` of the
+  whole CR-processed line when the guard holds) on escape-heavy lines many times longer in bytes than the limit.
 Direct oracle: (a) on every hook output — decoded cells carry exactly the requested styles, the
   line ends in the default state; (b) many generated diffs / blame / grep inputs through the real
   binary in all modes: at every newline of stdout the independent decoder is in the default
@@ -21,9 +23,11 @@ from .. import core as _core
 def core_BUILD():
     return _core.BUILD
 from .. import termmodel as T
+from .. import ingest as ING
 from . import c12
 
 DRIVERS = ["drv_style"]
+GENERATED = ["IngestSteps"]      # the rest is found through the imports of Props.C09 / Driver.Style
 
 
 _SIG_COUNT = {}
@@ -823,12 +827,300 @@ def rg_multiline_oracle(ctx, rep):
                                stdin_b64=base64.b64encode(inp).decode()), out, tag="rg-json-multiline-match" if multi else None)
 
 
+# --------------------------------------------------------------------------- ingest_line_utf8 under --max-line-length
+
+ESC_RE = re.compile("\x1b\\][^\x07\x1b]*(?:\x07|\x1b\\\\)|\x1b\\[[0-9;]*[A-Za-z]")
+
+
+def state_problem(b):
+    """None when the line `b` (no newline) read from the default state ends in it; else what is wrong."""
+    dec = T.decode(b)
+    if dec.problems:
+        return "partial-sequence"
+    e = dec.final
+    if e.mode != "ground":
+        return "partial-sequence"
+    if e.link is not None:
+        return "open-hyperlink"
+    if not e.is_default():
+        return "rendition"
+    return None
+
+
+def ingest_guard(max_len, r1):
+    """The documented rule: lines longer than --max-line-length bytes are truncated, except hunk headers and rg --json."""
+    b = r1.encode()
+    return max_len > 0 and len(b) > max_len and not b.startswith(b"@@") and not b.startswith(b"{")
+
+
+def heavy_cases(rng, max_len, n):
+    """Escape-heavy balanced lines for this limit (vlib/ingest.py: gen_escape_heavy), some with a `\r`: git's CRLF
+    remnant (the CR before the closing sequences at the end) or a CR followed by visible text."""
+    out = []
+    for _ in range(n):
+        items, shape = ING.gen_escape_heavy(rng, max_len)
+        r = rng.random()
+        texts = [k for k, it in enumerate(items) if it[0] == "t"]
+        cr = "no-cr"
+        if r < 0.15:
+            if texts and all(k == "e" for k, _ in items[texts[-1] + 1:]):
+                items[texts[-1]] = ("t", items[texts[-1]][1] + "\r")
+                cr = "cr-before-closing-sequences"
+            elif not texts:
+                items.insert(rng.randint(0, len(items)), ("t", "\r"))
+                cr = "cr-among-sequences"
+        elif r < 0.22 and len(texts) >= 2:
+            k = rng.choice(texts[:-1])
+            items[k] = ("t", items[k][1] + "\r")
+            cr = "cr-before-text"
+        out.append((items, shape, cr))
+    return out
+
+
+def drop_last_cr(items):
+    for k in range(len(items) - 1, -1, -1):
+        kind, s = items[k]
+        if kind == "t" and "\r" in s:
+            i = s.rindex("\r")
+            t = s[:i] + s[i + 1:]
+            return items[:k] + ([("t", t)] if t else []) + items[k + 1:]
+    return items
+
+
+def eval_ingest(rep, max_len, items, shape, cr, impl, model_out, comparable):
+    """Oracle + correspondence for one `machine.ingest` answer."""
+    line = "".join(s for _, s in items)
+    replay = dict(kind="ingest-hook", max_line_length=max_len, items=[list(x) for x in items], shape=shape, cr=cr, got=impl)
+    if not impl.startswith("ok"):
+        rep.count("ingest:" + impl.split(" ")[0])
+        if model_out is not None:
+            rep.corr_case("machine.ingest/ingest_raw", impl.startswith("PANIC") and model_out == "PANIC", dict(replay, model=model_out))
+        return
+    f = impl.split(" ")
+    raw = unhx(f[1]) if len(f) > 1 else b""
+    if model_out is not None:
+        if comparable:
+            rep.corr_case("machine.ingest/ingest_raw", model_out == raw, dict(replay, model=repr(model_out)))
+        else:
+            rep.count("ingest:skipped-width-not-additive")
+    cls = "%s:%s" % (shape, cr)
+    what_in = state_problem(line.replace("\r", "").encode())
+    what_out = state_problem(raw.replace(b"\r", b""))
+    if what_in is None and what_out is not None:
+        _viol(rep, "ingest:max-line-length:raw-line-unbalanced:" + what_out,
+              "a line whose own sequences are balanced is no longer balanced as raw_line (what every raw output path prints) "
+              "under --max-line-length %d [%s]" % (max_len, cls), replay)
+    esc_in = [s for k, s in items if k == "e"]
+    esc_got = ESC_RE.findall(raw.decode("utf-8", "replace"))
+    if esc_got != esc_in and esc_got != esc_in + [s for k, s in TAILS[0] if k == "e"]:
+        _viol(rep, "ingest:max-line-length:escapes-not-preserved",
+              "raw_line does not carry exactly the escape sequences of the input line (plus those of the truncation symbol) "
+              "under --max-line-length %d [%s]" % (max_len, cls), replay)
+
+
+def ask_ingest(ctx, mdl, gr, max_len, cases):
+    """machine.ingest (hook, Config from `--max-line-length max_len`) and the model `Line.ingestRaw` for each case:
+    -> [(impl answer, model raw_line bytes | 'PANIC' | None, comparable)]."""
+    hook = ctx.hook()
+    cfgline = "cfg " + " ".join(hx(a) for a in ["--max-line-length", str(max_len)])
+    lines = ["".join(s for _, s in items) for items, _, _ in cases]
+    impl = hook.ask([cfgline] + ["machine.ingest " + hx(l) for l in lines], sticky=[0])[1:]
+    if not mdl:
+        return [(i, None, False) for i in impl]
+    tails = [l[l.rfind("\r") + 1:] if "\r" in l else "" for l in lines]
+    widths = hook.ask(["style.truncate 0 x 1 t " + hx(t) for t in tails])
+    tz = [1 if (w.startswith("ok ") and w.split(" ")[2] == "0") else 0 for w in widths]
+    r1s = mdl.ask(["style.cr_step %d %s" % (z, hx(l)) for z, l in zip(tz, lines)])
+    sym = TAILS[0]
+    gr.ensure(["→"])
+    todo, plan = [], []
+    for (items, _, _), l, r in zip(cases, lines, r1s):
+        r1 = unhx(r[3:]).decode("utf-8") if r.startswith("ok ") else None
+        if r1 is None:
+            plan.append(("err", None))
+            continue
+        items1 = drop_last_cr(items) if r1 != l else items
+        if "".join(s for _, s in items1) != r1:
+            plan.append(("err", None))
+            continue
+        if ingest_guard(max_len, r1):
+            gr.ensure([s for k, s in items1 if k == "t"])
+            todo.append((items1, r1))
+            plan.append(("trunc", len(todo) - 1))
+        else:
+            plan.append(("asis", r1))
+    mres = mdl.ask(["style.truncate %d %s %s" % (max_len, items_fields(gr, sym), items_fields(gr, it)) for it, _ in todo]) if todo else []
+    hres = hook.ask(["style.truncate %d %s %s" % (max_len, hx("".join(s for _, s in sym)), hook_items_fields(it)) for it, _ in todo]) if todo else []
+    out = []
+    for i, (kind, x) in zip(impl, plan):
+        if kind == "err":
+            out.append((i, "ERR", True))
+        elif kind == "asis":
+            out.append((i, x.encode(), True))
+        else:
+            m, h = mres[x], hres[x]
+            if m.startswith("PANIC"):
+                out.append((i, "PANIC", True))
+            elif m.startswith("ok "):
+                additive = h.startswith("ok ") and h.split(" ")[2] == m.split(" ")[2]
+                out.append((i, unhx(m.split(" ")[1]), additive))
+            else:
+                out.append((i, "ERR", True))
+    return out
+
+
+def corr_ingest(ctx, rep, mdl, gr):
+    """`ingest_line_utf8` under small `--max-line-length` values on escape-heavy lines 1-33 times the limit long in
+    bytes: the hook's raw_line vs `Line.ingestRaw`, and the property on raw_line (balanced in => balanced out, every
+    sequence kept)."""
+    rng = ctx.rng
+    probe = ctx.hook().ask(["machine.ingest_cfg"])[0]
+    if not probe.startswith("ok "):
+        rep.count("ingest:hook-op-missing")
+        return
+    for max_len in ING.HEAVY_LIMITS + [0]:
+        cases = heavy_cases(rng, max_len if max_len else 20, ctx.n(14, 200))
+        res = ask_ingest(ctx, mdl, gr, max_len, cases)
+        for (items, shape, cr), (i, m, comparable) in zip(cases, res):
+            line = "".join(s for _, s in items)
+            nbytes = len(line.encode())
+            rep.case(key=("ingest", max_len, line), nontrivial=ingest_guard(max_len, line),
+                     sample=dict(op="machine.ingest", max_line_length=max_len, shape=shape, cr=cr, bytes=nbytes, impl=i[:120]))
+            rep.count("ingest:shape=" + shape)
+            rep.count("ingest:" + cr)
+            if max_len:
+                k = nbytes // (max_len + 1)
+                rep.count("ingest:bytes/(limit+1)=" + ("1-3" if k < 4 else "4-7" if k < 8 else "8-15" if k < 16 else ">=16"))
+                if i.startswith("ok ") and ingest_guard(max_len, line) and unhx(i.split(" ")[1]).replace(b"\r", b"") == line.replace("\r", "").encode():
+                    rep.count("ingest:longer-than-limit-but-fits-in-columns")
+            eval_ingest(rep, max_len, items, shape, cr, i, m, comparable)
+
+
+# --------------------------------------------------------------------------- binary: escape-heavy lines on every raw path
+
+SMALL_DIFF = ["\x1b[1mdiff --git a/src/app.js b/src/app.js\x1b[m", "\x1b[1mindex 587be6b..975fbec 100644\x1b[m",
+              "\x1b[1m--- a/src/app.js\x1b[m", "\x1b[1m+++ b/src/app.js\x1b[m",
+              "\x1b[36m@@ -1,3 +1,3 @@\x1b[m function main() {", " var a = 1;", "\x1b[31m-var b = 2;\x1b[m", "\x1b[32m+var b = 3;\x1b[m", " var z = 26;"]
+
+RAW_STYLES = ["--commit-style=raw", "--file-style=raw", "--hunk-header-style=raw"]
+RAW_HUNK = ["--minus-style=raw", "--plus-style=raw", "--zero-style=raw"]
+BOXES = ["--commit-decoration-style=blue box ul", "--file-decoration-style=blue box ul", "--hunk-header-decoration-style=blue box ul"]
+
+RAW_PATHS = {
+    # context -> option sets under which the context's lines are written from raw_line
+    "plain-text": [[], ["--side-by-side"], ["--color-only"], ["--line-numbers"], ["--raw"], ["--line-fill-method=spaces"]],
+    "text-after-hunk": [[], ["--side-by-side"], ["--line-numbers"], ["--color-only"]],
+    "no-newline-marker": [[], ["--side-by-side", "--line-numbers"]],
+    "commit-line": [["--commit-style=raw"], RAW_STYLES + BOXES, ["--color-only"], ["--raw"], ["--commit-style=raw", "--hyperlinks"]],
+    "file-lines": [["--file-style=raw"], RAW_STYLES + BOXES, ["--color-only"], ["--raw"], []],
+    "hunk-header": [["--hunk-header-style=raw"], RAW_STYLES + BOXES, ["--hunk-header-style=raw", "--side-by-side"], ["--color-only"]],
+    "hunk-lines": [RAW_HUNK, RAW_HUNK + ["--side-by-side"], RAW_HUNK + ["--line-numbers"], [], ["--side-by-side", "--wrap-max-lines=0"],
+                   ["--inspect-raw-lines=false"], ["--color-only"], ["--raw"], RAW_HUNK + ["--side-by-side", "--line-fill-method=spaces"]],
+    "diff-stat": [["--relative-paths"], ["--relative-paths", "--hyperlinks"], []],
+    "binary-and-submodule": [[], ["--file-style=raw"], ["--color-only"]],
+    "grep": [[], ["--hyperlinks"]],
+}
+
+
+def raw_path_doc(rng, context, max_len):
+    """-> (lines, env, shapes): an input in which escape-heavy balanced lines stand where `context` says."""
+    shapes = []
+
+    def h(shape=None):
+        items, sh = ING.gen_escape_heavy(rng, max_len, shape)
+        shapes.append(sh)
+        return "".join(s for _, s in items)
+    env = {}
+    sha = "%040x" % rng.randrange(1 << 160)
+    if context == "plain-text":
+        lines = [h("rainbow"), "", h("tokens"), h("link"), h("escape-tail"), h("late-close"), h(), "plain text without any colour at all"] + SMALL_DIFF
+    elif context == "text-after-hunk":
+        lines = SMALL_DIFF + [h("rainbow"), h("escape-tail"), h("late-close"), h()]
+    elif context == "no-newline-marker":
+        lines = SMALL_DIFF + ["\\ No newline at end of file " + h("escape-tail"), "\\ " + h()]
+    elif context == "commit-line":
+        lines = ["\x1b[33mcommit %s\x1b[m\x1b[33m (\x1b[m%s\x1b[33m)\x1b[m" % (sha, h(rng.choice(["tokens", "rainbow", "escape-tail", "late-close"]))),
+                 "Author: A U Thor <a@example.com>", "Date:   Thu Jan 1 00:00:00 1970 +0000", "", "    " + h(), ""] + SMALL_DIFF
+    elif context == "file-lines":
+        lines = ["\x1b[1mdiff --git a/src/app.js b/src/app.js\x1b[m " + h("escape-tail"), "\x1b[1mindex 587be6b..975fbec 100644\x1b[m" + h("escape-tail"),
+                 "\x1b[1m--- a/src/\x1b[m%s\x1b[1m.js\x1b[m" % h(rng.choice(["rainbow", "late-close", "escape-tail"])),
+                 "\x1b[1m+++ b/src/\x1b[m%s\x1b[1m.js\x1b[m" % h(rng.choice(["rainbow", "late-close", "escape-tail"]))] + SMALL_DIFF[4:]
+    elif context == "hunk-header":
+        lines = SMALL_DIFF[:4] + ["\x1b[36m@@ -1,3 +1,3 @@\x1b[m " + h()] + SMALL_DIFF[5:] + \
+            ["\x1b[36m@@ -11,2 +11,2 @@\x1b[m" + h("escape-tail"), " x", "\x1b[31m-y\x1b[m", "\x1b[32m+z\x1b[m"]
+    elif context == "hunk-lines":
+        lines = SMALL_DIFF[:4] + ["\x1b[36m@@ -1,4 +1,4 @@\x1b[m",
+                                  " " + h(), "\x1b[31m-\x1b[m" + h("rainbow"), "\x1b[31m-\x1b[m" + h("late-close"),
+                                  "\x1b[32m+\x1b[m" + h("rainbow"), "\x1b[32m+\x1b[m" + h("escape-tail"), " " + h("tokens"), " " + h("link")]
+    elif context == "diff-stat":
+        env = {"GIT_PREFIX": "sub/"}
+        graph = "".join("\x1b[32m+\x1b[m" for _ in range(rng.randint(1, 3) * (max_len + 1))) + "".join("\x1b[31m-\x1b[m" for _ in range(rng.randint(1, 9)))
+        shapes.append("graph")
+        lines = ["commit " + sha, "Author: A <a@b.c>", "Date:   Mon Jan 1 00:00:00 2024 +0000", "", "    msg", "",
+                 " sub/a.rs | 40 " + graph, " sub/dir/b.rs | 7 " + h("rainbow"), " other/c.rs | 3 " + h("escape-tail"),
+                 " 3 files changed, 8 insertions(+), 6 deletions(-)"]
+    elif context == "binary-and-submodule":
+        lines = ["\x1b[1mdiff --git a/x.bin b/x.bin\x1b[m", "\x1b[1mindex 1111111..2222222 100644\x1b[m",
+                 "Binary files a/x.bin and b/x.bin differ" + h("escape-tail"),
+                 "\x1b[1mSubmodule sub 1111111..2222222:\x1b[m" + h("escape-tail"), "  > " + h(), "Binary files a/y and b/y differ " + h("rainbow")]
+    elif context == "grep":
+        env = {"DELTA_VERIF_FORCE_GUESS": "git grep -n x"}
+        lines = ["src/main.rs:%d:%s" % (rng.randint(1, 99), h()) for _ in range(3)] + \
+                ["\x1b[35msrc/main.rs\x1b[m\x1b[36m:\x1b[m\x1b[32m7\x1b[m\x1b[36m:\x1b[m" + h("tokens")]
+    else:
+        raise ValueError(context)
+    return lines, env, shapes
+
+
+def raw_path_oracle(ctx, rep):
+    """Escape-heavy balanced lines (bytes >> columns, 1-33 x the limit in bytes) in every place where delta prints
+    `raw_line`, under --max-line-length 5/10/20/40/100 (and the default / 0 as controls)."""
+    import base64
+    rng = ctx.rng
+    work = os.path.join(core_BUILD(), "c09-work")
+    os.makedirs(os.path.join(work, "sub", "dir"), exist_ok=True)
+    jobs = []
+    limits = [5, 10, 20, 40, 100]
+    for rnd in range(ctx.n(1, 8)):
+        for context, optsets in RAW_PATHS.items():
+            for max_len in limits:
+                lines, env, shapes = raw_path_doc(rng, context, max_len)
+                if any(state_problem(l.encode()) for l in lines):
+                    rep.count("raw-path:input-not-balanced(skipped)")
+                    continue
+                inp = ("\n".join(lines) + "\n").encode()
+                picks = optsets if (rnd > 0 or not ctx.quick()) else optsets[:2] + [rng.choice(optsets[2:])] if len(optsets) > 2 else optsets
+                for opts in picks:
+                    lim = ["--max-line-length=%d" % max_len]
+                    if rng.random() < 0.08:
+                        lim = rng.choice([[], ["--max-line-length=0"]])
+                    a = ["--no-gitconfig", "--paging=never", "--width=%s" % rng.choice(["60", "90", "variable"])] + list(opts) + lim
+                    jobs.append((context, max_len, a, env, inp, shapes))
+    results = parallel_map(lambda j: ctx.run_delta(j[2], j[4], env=j[3], cwd=work, timeout=20), jobs)
+    for (context, max_len, a, env, inp, shapes), (rc, out, err) in zip(jobs, results):
+        rep.case(key=("raw-path", context, tuple(a), inp), nontrivial=True,
+                 sample=dict(op="raw-path", context=context, args=a, shapes=shapes, rc=rc, rows=out.count(b"\n")))
+        rep.count("raw-path:" + context)
+        rep.count("raw-path:limit=%s" % ([x.split("=")[1] for x in a if x.startswith("--max-line-length")] or ["default"])[0])
+        if rc == "timeout":
+            rep.count("raw-path:timeout(C03)")
+            continue
+        if rc != 0:
+            rep.count("raw-path:rc=%s(C03)" % rc)
+        check_stdout(rep, dict(kind="binary", input_kind="raw-path:" + context, args=a, env=env, cwd="scratch work dir with sub/dir",
+                               stdin_b64=base64.b64encode(inp).decode()), out, tag="max-line-length:raw-path:" + context)
+
+
 def run(ctx, rep):
     rep.rule = ("hook level: random lists of (style, text) / random lines built from text and escape-sequence items "
                 "(SGR, OSC 8, EL), random fill styles, widths 0-12, five truncation tails, 10 side-by-side configs; "
                 "binary: generated diffs (plain and git-coloured, wide chars, tabs, long lines, renames, modes), blame and "
                 "grep inputs x random mode flags (side-by-side + wrap/truncate at widths 16-120, line numbers, hyperlinks, "
-                "decorations, both fill methods, colour depths, random style options). Non-trivial = >=2 strings/items or "
+                "decorations, both fill methods, colour depths, random style options); ingest: escape-heavy balanced lines "
+                "(rainbow / per-token / OSC 8 with long URLs / text that fits followed by sequences only / rendition and link "
+                "closed only at the very end / mixed; 1-33 x (limit+1) bytes long) x --max-line-length 1-100 through "
+                "machine.ingest, and through the binary at every place raw_line is printed (10 contexts x the option sets that "
+                "make them raw). Non-trivial = >=2 strings/items or "
                 ">=3 output rows; distinct by full input")
     rep.extra_trusted += ["vlib/termmodel.py (independent terminal decoder, from ECMA-48 / xterm ctlseqs / OSC 8 spec)",
                           "unicode-segmentation / unicode-width (clusters and widths taken from the implementation)",
@@ -843,6 +1135,8 @@ def run(ctx, rep):
     decoration_oracle(ctx, rep)
     corr_cr(ctx, rep, mdl)
     cr_binary_oracle(ctx, rep)
+    corr_ingest(ctx, rep, mdl, gr)
+    raw_path_oracle(ctx, rep)
     diff_stat_oracle(ctx, rep)
     rg_multiline_oracle(ctx, rep)
     corr_term(ctx, rep, mdl, o1 + o2 + o3 + blobs)
@@ -858,5 +1152,13 @@ def replay(ctx, rep, obj):
         dec, bad = check_stdout(rep, dict(case), out)
         rep.case(key=("replay",), nontrivial=True)
         print("rows=%d bad=%d" % (len(dec.rows), bad))
+    elif case.get("kind") == "ingest-hook":
+        mdl = ctx.model("drv_style") if ctx.drivers_ok else None
+        items = [tuple(x) for x in case["items"]]
+        c = [(items, case.get("shape", "?"), case.get("cr", "?"))]
+        (i, m, comparable), = ask_ingest(ctx, mdl, Graphemes(ctx), case["max_line_length"], c)
+        print("replay machine.ingest -> %s" % i[:200])
+        rep.case(key=("replay",), nontrivial=True)
+        eval_ingest(rep, case["max_line_length"], items, c[0][1], c[0][2], i, m, comparable)
     else:
         run(ctx, rep)
